@@ -296,6 +296,9 @@ func cmdCheck(args []string) int {
 			continue
 		}
 		r := verifyFunction(w, c)
+		for _, d := range c.DroppedInv {
+			fmt.Println("NOTE: loop invariant dropped (no longer type-checks):", d)
+		}
 		results = append(results, r)
 		all = append(all, r.Obls...)
 	}
@@ -325,6 +328,7 @@ func cmdCheck(args []string) int {
 		retSat := 0
 		retProbes := 0
 		var failing []*Obligation
+		probeSat := map[string]*[2]int{}
 		for _, o := range r.Obls {
 			if o.Probe {
 				if strings.Contains(o.Kind, "reach.ret") {
@@ -332,9 +336,17 @@ func cmdCheck(args []string) int {
 					if o.Status == "sat" || o.Status == "unknown" || o.Status == "timeout" {
 						retSat++
 					}
-				} else if o.Status == "unsat" {
-					fmt.Printf("CHECK BROKEN: vacuity probe %s is unsatisfiable (contradictory precondition or invariant)\n", o.Name)
-					broken++
+				} else {
+					// pre-sat and per-loop invariant probes: at least one path to the probe point must be satisfiable
+					pr := probeSat[o.Name]
+					if pr == nil {
+						pr = &[2]int{}
+						probeSat[o.Name] = pr
+					}
+					pr[0]++
+					if o.Status != "unsat" {
+						pr[1]++
+					}
 				}
 				continue
 			}
@@ -350,6 +362,12 @@ func cmdCheck(args []string) int {
 				continue
 			}
 			failing = append(failing, o)
+		}
+		for name, pr := range probeSat {
+			if pr[0] > 0 && pr[1] == 0 {
+				fmt.Printf("CHECK BROKEN: vacuity probe %s is unsatisfiable on every path (contradictory precondition or invariant)\n", name)
+				broken++
+			}
 		}
 		if retProbes > 0 && retSat == 0 {
 			failing = append(failing, &Obligation{Name: r.Key + "#reach.ret", Kind: "reach.ret", Fn: r.Key, Status: "unsat", Model: "no return of the function is reachable under its precondition: every postcondition holds vacuously"})
